@@ -31,7 +31,7 @@ from collections import Counter
 from hypothesis import strategies as st
 
 from vf import runner
-from vf.engine import Case, Failure, h
+from vf.engine import Case, Failure, h, live_first
 from vf.project import Project
 from vf.render import c17_rust as rr
 
@@ -94,6 +94,7 @@ DEVIATIONS = (
     "method-wrapper-unrecognised",     # rt.spawn_blocking(|| ..) is not treated as a wrapper
     "multiline-reported-at-expression-start",  # continuation-line call reported on the receiver's line
 )
+DEVIATIONS = tuple(live_first("C17", DEVIATIONS))  # still-known deviations are tried first, repaired ones only classify regressions
 UNCONSTRAINED = object()
 
 
